@@ -164,7 +164,7 @@ def rooms(
         dtype=int,
     )
 
-    if len(y_splits) != len(set(y_splits)):
+    if np.any(np.diff(y_splits) < 2):  # every room needs an interior
         raise ValueError(
             f'insufficient height ({shape.height}) for layout ({layout})'
         )
@@ -176,7 +176,7 @@ def rooms(
         dtype=int,
     )
 
-    if len(x_splits) != len(set(x_splits)):
+    if np.any(np.diff(x_splits) < 2):  # every room needs an interior
         raise ValueError(
             f'insufficient width ({shape.width}) for layout ({layout})'
         )
@@ -535,7 +535,7 @@ def memory_rooms(
         dtype=int,
     )
 
-    if len(y_splits) != len(set(y_splits)):
+    if np.any(np.diff(y_splits) < 2):  # every room needs an interior
         raise ValueError(
             f'insufficient shape.height ({shape.height}) for layout ({layout})'
         )
@@ -547,7 +547,7 @@ def memory_rooms(
         dtype=int,
     )
 
-    if len(x_splits) != len(set(x_splits)):
+    if np.any(np.diff(x_splits) < 2):  # every room needs an interior
         raise ValueError(
             f'insufficient shape.width ({shape.width}) for layout ({layout})'
         )
